@@ -285,7 +285,7 @@ func runC03(r *Report) {
 					if c, ok := in.(*ssa.Call); ok && c.Common().StaticCallee() != nil {
 						passes := false
 						for i, a := range c.Call.Args {
-							if originSummary(a) == "param:conn" && i < len(c.Common().StaticCallee().Params) && c.Common().StaticCallee().Params[i].Name() == "conn" {
+							if originSummary(a) == "param:conn" && i < len(c.Common().StaticCallee().Params) && canonParamName(c.Common().StaticCallee().Params[i]) == "conn" {
 								passes = true
 							}
 						}
@@ -886,7 +886,7 @@ func checkGateViaHelper(r *Report, rule string, hh *ssa.Function, callee, comp s
 		o := originSummary(Arg(gate, 0))
 		good := false
 		for i, hp := range h.Params {
-			if o == "param:"+hp.Name() && i < len(hc.Call.Args) {
+			if o == "param:"+canonParamName(hp) && i < len(hc.Call.Args) {
 				oo := originSummary(hc.Call.Args[i])
 				good = !strings.Contains(oo, "param:req") && strings.Contains(oo, "extractIP")
 				o = oo
